@@ -129,6 +129,38 @@ def lit_disjoint(t1, t2):
     return False
 
 
+def mk_ite(c, a, b):
+    """conditional value; a negated test with swapped branches gives the same term"""
+    while isinstance(c, tuple) and c and c[0] == "not":
+        c, a, b = c[1], b, a
+    return ("ite", c, a, b)
+
+
+def elim_continue(stmts):
+    """`if (c) { A; continue; } B...` inside a loop body is `if (c) { A } else { B... }`; a `continue` that ends the
+    body is dropped.  (Structured form of an early continue; anything else with a continue is left for the caller to refuse.)"""
+    out = []
+    for i, s in enumerate(stmts):
+        if s.get("kind") == "ContinueStmt" and i == len(stmts) - 1:
+            return out
+        if s.get("kind") == "IfStmt" and not s.get("hasElse") and not s.get("hasInit") and not s.get("hasVar"):
+            ks = [c for c in s.get("inner", []) if c]
+            if len(ks) == 2:
+                body = ks[1]
+                inner = kids(body) if body.get("kind") == "CompoundStmt" else [body]
+                if inner and inner[-1].get("kind") == "ContinueStmt" and \
+                        not any(m.get("kind") == "ContinueStmt" for x in inner[:-1] for m in walk(x)):
+                    then = dict(kind="CompoundStmt", inner=inner[:-1])
+                    rest = dict(kind="CompoundStmt", inner=elim_continue(stmts[i + 1:]))
+                    new = dict(s)
+                    new["inner"] = [ks[0], then, rest]
+                    new["hasElse"] = True
+                    out.append(new)
+                    return out
+        out.append(s)
+    return out
+
+
 class Upd:
     """one layer of pending writes to an array: pos[p] = ('fix', iexpr) | ('rng', lo, hi);
     value in terms of the coordinates ('ivar','c<p>') of the rng positions"""
@@ -282,7 +314,7 @@ class Exec:
             return ({"+": "add", "-": "sub", "*": "mul", "/": "div"}[n["opcode"]], self.kexpr(a), self.kexpr(b))
         if k == "ConditionalOperator":
             c, a, b = kids(n)
-            return ("ite", self.cond(c), self.kexpr(a), self.kexpr(b))
+            return mk_ite(self.cond(c), self.kexpr(a), self.kexpr(b))
         if k == "CXXOperatorCallExpr":
             arr, idx = self.subscript(n)
             return self.read_any(arr, idx)
@@ -525,6 +557,7 @@ class Exec:
         return arrs, locs
 
     def exec_block(self, stmts, top=False):
+        stmts = elim_continue(stmts)
         for i, s in enumerate(stmts):
             if self.returned:
                 self.err("statements after a return")
@@ -661,7 +694,7 @@ class Exec:
         env = {}
         for rid in base_env:
             a, b = e1.get(rid), e2.get(rid)
-            env[rid] = a if a == b else ("ite", c, a, b)
+            env[rid] = a if a == b else mk_ite(c, a, b)
         self.env = env
         stacks = {}
         for arr in set(s1) | set(s2) | set(base_st):
@@ -682,14 +715,14 @@ class Exec:
                 if u1 is not None and u2 is not None:
                     if u1.pos != u2.pos:
                         self.err("the two branches write different regions of %s" % arr[1])
-                    merged.append(Upd(u1.pos, u1.value if u1.value == u2.value else ("ite", c, u1.value, u2.value)))
+                    merged.append(Upd(u1.pos, u1.value if u1.value == u2.value else mk_ite(c, u1.value, u2.value)))
                 else:
                     u = u1 or u2
                     if not all(p[0] == "fix" for p in u.pos):
                         self.err("only one branch writes a region of %s" % arr[1])
                     self.stacks = {arr: merged}
                     old = self.read(arr, u.coords())
-                    merged.append(Upd(u.pos, ("ite", c, u.value, old) if u1 is not None else ("ite", c, old, u.value)))
+                    merged.append(Upd(u.pos, mk_ite(c, u.value, old) if u1 is not None else mk_ite(c, old, u.value)))
             stacks[arr] = merged
         self.stacks = stacks
 
